@@ -92,7 +92,7 @@ def build_traces(path, tier, seed):
         shift = float(rng.choice([4.0, -3.0, 100.0, rng.uniform(-10, 10)]))
         if rng.integers(4) == 0 and not (i % 5 == 1):
             # records in small / large units: total variation and the peak-only series are scale free
-            sc = 10.0 ** rng.choice([rng.uniform(-12, -6), rng.uniform(3, 8)])
+            sc = 10.0 ** rng.choice([rng.uniform(-12, -6), rng.uniform(3, 8), rng.uniform(-290, -160)])     # (... down to units in which products of differences underflow)
             x = x * sc
             shift = shift * sc
         arg = x if i % 4 else x.tolist()
